@@ -272,7 +272,7 @@ class SymDomain(BaseDomain):
             allclose=lambda *a, **k: UNKNOWN("allclose"), isclose=lambda *a, **k: UNKNOWN("isclose"),
             any=d.np_any, all=d.np_all, isscalar=d.np_isscalar,
             isfinite=lambda v: UNKNOWN("isfinite"), isnan=lambda v: UNKNOWN("isnan"),
-            where=d.np_where, clip=lambda a, lo, hi: Opaque("clip"),
+            where=d.np_where, clip=d.np_clip,
             arange=lambda *a, **k: SymArr(np.arange(*a).astype(object), "real"),
             diag=d.np_diag, fill_diagonal=d.np_fill_diagonal, trace=lambda a: d.np_sum(np.diagonal(wrap(a))),
             dot=lambda a, b: d.binop(None, operator.matmul, a, b, None), matmul=lambda a, b: d.binop(None, operator.matmul, a, b, None),
@@ -555,6 +555,18 @@ class SymDomain(BaseDomain):
     def np_isscalar(self, v):
         return not isinstance(v, (SymArr, list, tuple, Instance)) and (is_number(v) or isinstance(v, (Poly, SQ, SC, str)))
 
+    def np_clip(self, a, lo, hi, **k):
+        """np.clip: fresh array of the same shape; entry = the number itself when it is a constant, otherwise the
+        atom ('clip', key(entry), lo, hi) (value numbering, nothing is evaluated)."""
+        if not isinstance(a, SymArr) or a.kind != "real" or not all(is_number(x) and not isinstance(x, Poly) for x in (lo, hi)):
+            return Opaque("clip")
+        out = mk(a.shape, "real")
+        of, af = out.reshape(-1), a.reshape(-1)
+        for i in range(af.size):
+            v = P(af[i])
+            of[i] = Poly.const(min(max(v.const_value(), lo), hi)) if v.is_const() else Poly.atom(("clip", v.key(), lo, hi))
+        return out
+
     def np_where(self, cond, a=None, b=None):
         raise Unsupported("np.where on symbolic data")
 
@@ -808,6 +820,19 @@ class SymDomain(BaseDomain):
             return r
         return SymArr(r, combine_kind(a, b), a.sparse and b.sparse)
 
+    def inplace_result(self, interp, op, cur, new, node):
+        """Augmented assignment on a name bound to a dense ndarray: numpy writes the result into the existing
+        buffer (same object, aliases updated); shape / dtype-class changes raise as numpy does."""
+        if op is operator.matmul or not isinstance(cur, SymArr) or cur.sparse or not isinstance(new, SymArr):
+            return new
+        order = {"real": 0, "complex": 1, "quat": 2}
+        if tuple(new.shape) != tuple(cur.shape):
+            raise ModelError(f"non-broadcastable output operand with shape {cur.shape} doesn't match the broadcast shape {new.shape}")
+        if order[new.kind] > order[cur.kind]:
+            raise ModelError(f"cannot cast in-place result from {new.kind} to {cur.kind}")
+        np.asarray(cur, dtype=object)[...] = np.asarray(new, dtype=object)
+        return cur
+
     def unop(self, interp, op, v, node):
         if isinstance(v, SymArr):
             return SymArr(op(np.asarray(v, dtype=object)), v.kind, v.sparse)
@@ -890,6 +915,8 @@ class SymDomain(BaseDomain):
             return lambda *x: SymArr(np.asarray(a, dtype=object).reshape(-1).copy(), a.kind)
         if attr == "transpose":
             return lambda *axes: SymArr(np.asarray(a, dtype=object).transpose(*axes), a.kind, a.sparse)
+        if attr == "swapaxes":
+            return lambda a1, a2: SymArr(np.asarray(a, dtype=object).swapaxes(a1, a2), a.kind)
         if attr in ("conj", "conjugate"):
             def conj():
                 r = self.np_conj(a)
